@@ -482,6 +482,53 @@ func c19Schemas() []func() *c19Schema {
 			}
 			return s
 		},
+		func() *c19Schema {
+			s := &c19Schema{name: "map[string]any input whose nested records are typed maps, named maps, Go structs and pointers to structs"}
+			type owner struct {
+				Name string
+				Age  int
+			}
+			type named map[string]any
+			rec := func() z.ZogSchema { return z.Struct(z.Schema{"Name": z.String().Min(2), "Age": z.Int().GT(0)}) }
+			sc := z.Struct(z.Schema{
+				"labels": z.Struct(z.Schema{"Name": z.String().Min(2)}),
+				"owner":  rec(),
+				"backup": z.Ptr(rec()),
+			})
+			sc2 := z.Struct(z.Schema{
+				"extra": rec(),
+				"list":  z.Slice(rec()),
+			})
+			type D struct {
+				Labels struct{ Name string }
+				Owner  owner
+				Backup *owner
+			}
+			type D2 struct {
+				Extra owner
+				List  []owner
+			}
+			in := map[string]any{
+				"labels": map[string]string{"Name": "team-a"},
+				"owner":  owner{"ann", 30},
+				"backup": &owner{"bob", 40},
+				"extra":  named{"Name": "cy", "Age": 5},
+				"list":   []any{owner{"ed", 7}, map[string]string{"Name": "fy"}},
+			}
+			own(&s.inputs, "input map holding typed nested records", in)
+			own(&s.objects, "schema object", sc)
+			own(&s.objects, "second schema object", sc2)
+			s.events = []c19Event{
+				{"Parse(map holding typed nested records)", func() (string, any) { var d D; m := sc.Parse(in, &d); return c19Obs(m, d), nil }},
+				{"Parse(the same map: named-map record and a list of typed records)", func() (string, any) { var d D2; m := sc2.Parse(in, &d); return c19Obs(m, d), nil }},
+				{"Parse(the labels of the same input as a typed map)", func() (string, any) {
+					var d map[string]string
+					m := z.CustomFunc(func(p *map[string]string, c z.Ctx) bool { return len(*p) == 1 }).Parse(in["labels"], &d)
+					return c19Obs(m, d), nil
+				}},
+			}
+			return s
+		},
 	}
 }
 
@@ -635,7 +682,7 @@ func init() {
 		ID:    "C19",
 		Rule:  "one execution = one sequence of ≤depth calls (Parse/Validate, absent/present inputs given as maps, []any, typed slices, structs, pointers) under {stock formatter, stock formatter over templates that mention {{value}}} on ONE schema object whose PostTransforms overwrite and append to their destination; after every call: deep snapshot (incl. hidden capacity) of every value handed to a builder (slice/nested defaults, OneOf lists, Contains params) and of every input is unchanged, the schema object itself (every field at any depth, incl. each test's parameter map) is unchanged, the destination shares no backing array with them, and a repeated call observes exactly what its first occurrence observed; every sequence is non-trivial; distinct = distinct (schema, call sequence). plus " + callsRule + ". plus " + layoutRule,
 		Floor: 20,
-		Bound: func(tier string) string { return fmt.Sprintf("all call sequences of length ≤%d over 14 schema families, every field visit order", c19Depth(tier)) },
+		Bound: func(tier string) string { return fmt.Sprintf("all call sequences of length ≤%d over 15 schema families, every field visit order", c19Depth(tier)) },
 		Assumptions: []string{"mutating callbacks only write through the pointer they are given"},
 		Items: func(tier string) []Item {
 			var items []Item
@@ -643,7 +690,7 @@ func init() {
 				items = append(items, Item{Name: fmt.Sprintf("schema%d", i), MaxDevs: -1, Run: c19Scenario(i, c19Depth(tier))})
 			}
 			// across schemas: sequences of calls on different schema objects that share the pools
-			items = append(items, callsItems(tier, "C19", "schema-modified", "depends-on-history", "nested-call-differs")...)
+			items = append(items, callsItems(tier, "C19", "schema-modified", "callers-value-modified", "depends-on-history", "nested-call-differs")...)
 			// a schema behaves identically on every later use, also with another destination type
 			items = append(items, layoutItems(tier, "C19", "panic", "issues", "issues-missing", "destination", "callbacks")...)
 			return items
